@@ -85,8 +85,8 @@ def _is_hermitian_syntactic(A):
     for i in range(D):
         for j in range(i, D):
             a, b = SC(A[i, j]), SC(A[j, i]).conjugate()
-            if not (z3.simplify(a.re.z - b.re.z, som=True).eq(z3.RealVal(0)) and
-                    z3.simplify(a.im.z - b.im.z, som=True).eq(z3.RealVal(0))):
+            if not (z3.simplify(a.re.z - b.re.z, som=True, sort_sums=True).eq(z3.RealVal(0)) and
+                    z3.simplify(a.im.z - b.im.z, som=True, sort_sums=True).eq(z3.RealVal(0))):
                 return False
     return True
 
